@@ -24,7 +24,12 @@ pub fn def() -> PropDef {
 const RULE: &str = "ledgers with 6-12 securities, several disposals per date, 3-10 tax years (so every internal hash map has many keys), shuffled input lines; calculate + text + JSON repeated 20 times must be byte-identical and canonically ordered (years ascending, disposals by date then ticker, holdings by ticker, echoed trades by date then ticker); non-trivial = >=5 securities with disposals in one tax year; distinct by DSL hash";
 
 fn strat(t: Tier) -> BoxedStrategy<GenLedger> {
-    lgen::ledger_strategy(GenCfg::basic().secs(12).acts(6).days(8, t.pick(18, 30)).splits(SplitMode::Terminating).dividends(true).shuffle(true).years(2015, 2021))
+    prop_oneof![
+        lgen::ledger_strategy(GenCfg::basic().secs(12).acts(6).days(8, t.pick(18, 30)).splits(SplitMode::Terminating).dividends(true).shuffle(true).years(2015, 2021)),
+        // prefix-related ticker names (GOOG/GOOGL, BT/BTA, A/AA/AAB): ticker order must still be total
+        lgen::ledger_strategy(GenCfg::basic().secs(12).acts(6).days(8, t.pick(18, 30)).splits(SplitMode::Terminating).dividends(true).shuffle(true).years(2015, 2021).wide(true)),
+    ]
+    .boxed()
 }
 
 pub fn check(gl: &GenLedger, obs: &mut Obs) -> Verdict {
@@ -133,7 +138,7 @@ pub struct PdfCase {
 const RULE_PDF: &str = "same ledgers: the text runs of the compiled PDF (verif-hooks) from 3 compilations must be identical after masking the 'Generated:' run, and the generated PDF bytes must start with %PDF; non-trivial = >=5 securities; distinct by DSL hash";
 
 fn strat_pdf(t: Tier) -> BoxedStrategy<PdfCase> {
-    lgen::ledger_strategy(GenCfg::basic().secs(8).acts(5).days(6, t.pick(12, 18)).dividends(true).shuffle(true).years(2015, 2021)).prop_map(|gl| PdfCase { gl }).boxed()
+    lgen::ledger_strategy(GenCfg::basic().secs(8).acts(5).days(6, t.pick(12, 18)).dividends(true).shuffle(true).years(2015, 2021).wide(true)).prop_map(|gl| PdfCase { gl }).boxed()
 }
 
 pub fn check_pdf(c: &PdfCase, obs: &mut Obs) -> Verdict {
@@ -246,7 +251,7 @@ pub struct ProcCase {
 const RULE_PROC: &str = "process level: `cgt-tool report` (plain, json), `cgt-tool parse` and `cgt-tool convert schwab` on one generated input executed N times in fresh processes (fresh hash seeds) must print byte-identical stdout (converter: after masking the '# Converted:' line); N = 4 quick, 40 thorough; non-trivial = every case; distinct by input hash";
 
 fn strat_proc(t: Tier) -> BoxedStrategy<ProcCase> {
-    let cfg = GenCfg::basic().secs(10).acts(6).days(8, t.pick(16, 24)).splits(SplitMode::Terminating).dividends(true).shuffle(true).years(2015, 2021);
+    let cfg = GenCfg::basic().secs(10).acts(6).days(8, t.pick(16, 24)).splits(SplitMode::Terminating).dividends(true).shuffle(true).years(2015, 2021).wide(true);
     (lgen::ledger_strategy(cfg), crate::props::conv::strat18_pub(t)).prop_map(|(gl, export)| ProcCase { gl, export }).boxed()
 }
 
